@@ -118,11 +118,7 @@ pub fn run_session<R>(chain: &SimChain, node: &SimNode, cfg: &TowerCfg, f: impl 
 
         // (main.rs) on a fresh bootstrap, persist where we start from
         if last_known_block.is_none() {
-            // `DBM::store_last_known_block` is crate-private: same statement through a second connection
-            use bitcoin::hashes::Hash;
-            let c = rusqlite::Connection::open(&cfg.db_path).map_err(|e| BootError::Db(format!("{e:?}")))?;
-            c.execute("INSERT OR REPLACE INTO last_known_block (id, block_hash) VALUES (0, ?)", rusqlite::params![tip.header.block_hash().to_byte_array().to_vec()])
-                .map_err(|e| BootError::Db(format!("{e:?}")))?;
+            dbm.lock().unwrap().store_last_known_block(&tip.header.block_hash()).unwrap();
         }
 
         let gatekeeper = Arc::new(Gatekeeper::new(tip.height, cfg.slots, cfg.duration, cfg.grace, dbm.clone()));
